@@ -83,7 +83,7 @@ MaxAbs(t) == MaxAbsSeq(Flatten(t.c))            \* one batch axis
 Small(t, u, op) == IF op = "mul" THEN MaxAbs(t) < 4000 /\ MaxAbs(u) < 4000 ELSE MaxAbs(t) + MaxAbs(u) < 16000000
 Emitop(o, res) == hist' = Append(hist, o) /\ heap' = (IF Len(heap) < 9 THEN Append(heap, res) ELSE heap)
 Next == /\ Len(hist) < Depth
-        /\ \E i \in {R(DOMAIN heap)}, j \in {R(DOMAIN heap)}, w \in {R(1..12)} :
+        /\ \E i \in {R(DOMAIN heap)}, j \in {R(DOMAIN heap)}, w \in {R(1..14)} :
            LET t == heap[i]  u == heap[j] IN
            CASE w \in {1, 2, 3} /\ One(t) ->
                   \E rs \in {R(RowSels(t.sh[1]) \cup {EllSel})}, cs \in {R(ColSels(t.sp))} :
@@ -95,10 +95,15 @@ Next == /\ Len(hist) < Depth
              [] w = 5 /\ ~CatValid(t, u) /\ One(t) /\ One(u) ->      \* an attempt the API has to reject (different spaces)
                   hist' = Append(hist, [Op0 EXCEPT !.a = "badcat", !.t = i, !.u = j]) /\ UNCHANGED heap
              [] w = 6 /\ One(t) /\ t.sh[1] <= 3 -> \E n \in {R(1..3)} : Emitop([Op0 EXCEPT !.a = "repeat", !.t = i, !.n = n], Repeat(t, n))
-             [] w = 7 /\ One(t) /\ One(u) /\ ArithValid(t, u) ->
-                  \E op \in {R({"add", "sub", "mul", "eq"})} :
-                     IF op = "eq" THEN hist' = Append(hist, [Op0 EXCEPT !.a = "eq", !.t = i, !.u = j]) /\ UNCHANGED heap
-                     ELSE IF Small(t, u, op) THEN Emitop([Op0 EXCEPT !.a = "arith", !.t = i, !.u = j, !.op = op], Arith(t, u, op))
+             [] w \in {7, 14} /\ One(t) /\ One(u) /\ ArithValid(t, u) -> LET j2 == j  u2 == u IN
+                  \E op \in {R({"add", "sub", "mul", "eq", "div", "pow"})} :
+                     IF op = "eq" THEN hist' = Append(hist, [Op0 EXCEPT !.a = "eq", !.t = i, !.u = j2]) /\ UNCHANGED heap
+                     \* quotient: only where every cell of u divides the cell of t (t / t, (t * u) / u, ...); power: exponent cells 0, 1, 2
+                     ELSE IF op = "div" THEN (IF \A r \in DOMAIN t.c : \A c \in DOMAIN t.c[r] : u2.c[r][c] > 0 /\ t.c[r][c] >= 0 /\ t.c[r][c] % u2.c[r][c] = 0
+                                             THEN Emitop([Op0 EXCEPT !.a = "arith", !.t = i, !.u = j, !.op = op], Arith(t, u2, op)) ELSE UNCHANGED vars)
+                     ELSE IF op = "pow" THEN (IF (\A r \in DOMAIN t.c : \A c \in DOMAIN t.c[r] : u2.c[r][c] \in 0..2) /\ MaxAbs(t) < 4000
+                                             THEN Emitop([Op0 EXCEPT !.a = "arith", !.t = i, !.u = j, !.op = op], Arith(t, u2, op)) ELSE UNCHANGED vars)
+                     ELSE IF Small(t, u2, op) THEN Emitop([Op0 EXCEPT !.a = "arith", !.t = i, !.u = j, !.op = op], Arith(t, u2, op))
                      ELSE UNCHANGED vars
              [] w = 8 /\ One(t) ->
                   \E rs \in {R({s \in RowSels(t.sh[1]) : s.k # "int" \/ TRUE})}, cs \in {R({c \in ColSels(t.sp) : c.k # "nslice"})} :
@@ -115,6 +120,7 @@ Next == /\ Len(hist) < Depth
                      /\ hist' = hist \o <<[Op0 EXCEPT !.a = "get", !.t = i, !.sels = <<>>, !.cs = ListSel(pm)],
                                            [Op0 EXCEPT !.a = "eq", !.t = i, !.u = Len(heap) + 1]>>
                      /\ heap' = Append(heap, Get(t, <<>>, ListSel(pm)))
+             [] w = 13 /\ One(t) -> hist' = Append(hist, [Op0 EXCEPT !.a = "iter", !.t = i]) /\ UNCHANGED heap       \* list(points): one table per row
              [] w = 11 -> \E dt \in {R({32, 64})} : hist' = Append(hist, [Op0 EXCEPT !.a = "to", !.t = i, !.n = dt]) /\ UNCHANGED heap
              [] OTHER -> \E eq \in {R(BOOLEAN)} : hist' = Append(hist, [Op0 EXCEPT !.a = IF eq THEN "eq" ELSE "space", !.t = i, !.u = j]) /\ UNCHANGED heap
 Spec == Init /\ [][Next]_vars
